@@ -8,6 +8,7 @@ from pathlib import Path
 from typing import Callable, Iterable
 
 from . import _data_schema_builder, _error, _expression, _parser, _port_id_ranges, _serializable
+from . import _verif_trace
 from ._dsdl import DefinitionVisitor, ReadableDSDLFile
 
 
@@ -214,6 +215,16 @@ class DataTypeBuilder(_parser.StatementStreamProcessor):
                 lambda d: d.full_name.lower() == full_name.lower() and d.version == version, self._lookup_definitions
             )
         )
+        if _verif_trace.ENABLED:
+            _verif_trace.emit(
+                "resolve",
+                src=str(self._definition.file_path),
+                name=full_name,
+                major=version.major,
+                minor=version.minor,
+                found=[str(x.file_path) for x in found],
+                lookup=len(self._lookup_definitions),
+            )
         if not found:
             # Play Sherlock to help the user with mistakes like https://forum.opencyphal.org/t/904/2
             requested_ns = full_name.split(_serializable.CompositeType.NAME_COMPONENT_SEPARATOR)[0]
@@ -294,6 +305,8 @@ class DataTypeBuilder(_parser.StatementStreamProcessor):
             line_number,
             (": %s" % value) if value is not None else " (no value to print)",
         )
+        if _verif_trace.ENABLED:
+            _verif_trace.emit("print", file=str(self._definition.file_path), line=line_number)
         self._print_output_handler(line_number, str(value if value is not None else ""))
 
     def _on_assert_directive(self, line_number: int, value: _expression.Any | None) -> None:
